@@ -103,8 +103,17 @@ def respell(text):
     return re.sub(r'(?<![A-Za-z_0-9])\d+(?![A-Za-z_0-9])', sp, text)
 
 
+HAS_INCLUDE = ['__has_include("%s")', '__has_include(<%s>)', '__has_include( "%s" )', '__has_include("%s" )', '__has_include( <%s>)', '__has_include(<%s> )', '__has_include ("%s")']
+_hi = [0]
+
+
 def cond_text(c, first):
     if c[0] == 'if':
+        if c[1] in (('lit', 0), ('lit', 1)) and _hi[0] % 3 != 2:
+            # the constants 0 and 1 are also spelled as __has_include of a header that is absent / present (present.h sits beside the test file)
+            _hi[0] += 1
+            return ('#if ' if first else '#elif ') + HAS_INCLUDE[_hi[0] % len(HAS_INCLUDE)] % ('present.h' if c[1][1] else 'absent.h')
+        _hi[0] += 1
         return ('#if ' if first else '#elif ') + respell(X.minimal(c[1], Names()))
     if c[0] == 'ifdef':
         return ('#ifdef M%d' if first else '#elifdef M%d') % c[1]
